@@ -1001,7 +1001,11 @@ func raceTrace(T *tracer, pool []*meta, seed int64, idx int) {
 	for i := 0; i < 2000 && e.s.GetTorrent("a") != nil; i++ {
 		time.Sleep(50 * time.Microsecond)
 	}
-	go func() { defer wg.Done(); e.callAdd(3, addSpec{m: pool[2], kind: "torrent", stopped: true, id: "a"}) }()
+	go func() {
+		defer wg.Done()
+		e.callAdd(3, addSpec{m: pool[2], kind: "torrent", stopped: true, id: "a"})
+		once.Do(release) // the add was refused before it reached the storage provider: open the gate for the remove
+	}()
 	wg.Wait()
 	once.Do(release)
 	e.prov.gate.Store(nil)
